@@ -134,8 +134,17 @@ def fallback(outcomes):
             p = factory.buildProtocol(IPv4Address("TCP", host, port))
             tr = proto_helpers.StringTransport()
             p.makeConnection(tr)
-            p.dataReceived(b"\x05\x00")
-            p.dataReceived(b"\x05\x00\x00\x01\x01\x02\x03\x04\x00\x50")
+            if out == "hangup":
+                # the TCP connection was made; Tor hangs up during the SOCKS negotiation
+                p.connectionLost(failure.Failure(error.ConnectionDone("attempt %d" % (i + 1))))
+            else:
+                p.dataReceived(b"\x05\x00")
+                if out == "socksfail":
+                    # the TCP connection was made; the SOCKS request is refused (host unreachable)
+                    p.dataReceived(b"\x05\x04\x00\x01\x00\x00\x00\x00\x00\x00")
+                    p.connectionLost(failure.Failure(error.ConnectionDone()))
+                else:
+                    p.dataReceived(b"\x05\x00\x00\x01\x01\x02\x03\x04\x00\x50")
         if fired:
             break
     for extra in reactor.tcpClients[len(tried):]:
@@ -149,6 +158,9 @@ def fallback(outcomes):
             import re
             mm = re.search(r"attempt (\d+)", msg)
             which = int(mm.group(1)) if mm else 0
+            if not mm and type(v.value).__name__ == "HostUnreachableError":
+                # a SOCKS-level refusal carries no tag: it belongs to the attempt that got a SOCKS reply
+                which = 1 + [i for i, o in enumerate(outcomes) if o == "socksfail"][0] if "socksfail" in outcomes else 0
         else:
             result = "ok"
             which = len(tried)
